@@ -104,7 +104,8 @@ def run(ctx):
     ctx.trusted = cm.STD_TRUST
     ctx.tested_not_proved = ["hole filling (scipy.ndimage.binary_fill_holes): containment tested only",
                              "binary64 path lengths equal the real-number value to 1e-9 (tested)"]
-    proved = cm.prove_with_kernels(ctx, ["c_upstream", "c_downstream", "c_neighbours"])
+    proved = cm.prove_with_kernels(ctx, ["c_upstream", "c_downstream", "c_neighbours", "c_delineate_river",
+                                         "c_delineate_flowpathlengths_in_catchment", "c_delineate_area"])
     cm.use_impl()
     from hydrodiy.gis import grid as hygrid
     rng = ctx.rng
